@@ -44,6 +44,7 @@ pub fn fsm(a: &Args) {
 pub fn session(a: &Args) {
     let frame = match a.str("frame") {
         "auth" => VerifFrame::Auth { kind: a.str("kind").to_string(), val: a.u64("val") as u32, flag: a.u64("flag") != 0, digest: unhex(a.str("digest")) },
+        "auth_handle" => VerifFrame::AuthHandle { kind: a.str("kind").to_string(), val: a.u64("val") as u32, flag: a.u64("flag") != 0, digest: unhex(a.str("digest")) },
         "node" => VerifFrame::Node { kind: a.str("kind").to_string() },
         "control" => VerifFrame::Control { kind: a.str("kind").to_string() },
         other => panic!("unknown frame {other}"),
@@ -87,4 +88,13 @@ pub fn proxy(a: &Args) {
     let rt = tokio::runtime::Builder::new_current_thread().enable_time().build().unwrap();
     let out = rt.block_on(rp::proxy_step(a.u64("pid"), a.u64("counter"), &pending, a.opt_u128("cursor").map(|x| x as u64), a.str("kind"), a.u64("reply_tag"), a.u64("timeout_ms"), a.u64("session_dead") == 1));
     println!("out={}", out.replace('=', ":"));
+}
+
+/// node_sessions authenticated=<ids> unnamed=<ids>
+pub fn sessions(a: &Args) {
+    let auth: Vec<u64> = a.list_u128("authenticated").iter().map(|x| *x as u64).collect();
+    let unnamed: Vec<u64> = a.list_u128("unnamed").iter().map(|x| *x as u64).collect();
+    let rt = tokio::runtime::Builder::new_current_thread().enable_time().build().unwrap();
+    let l = rt.block_on(np::verif_get_sessions(&auth, &unnamed));
+    println!("listed={}", l.iter().map(|x| x.to_string()).collect::<Vec<_>>().join(","));
 }
